@@ -147,6 +147,10 @@ pub fn large_docs() -> Vec<Doc> {
 /// 8-byte integer fields: every count of the header and of the reference sequence sections is delivered
 /// in two reads by the BGZF layer.
 pub fn reblocked_in_counts(doc: &Doc, max: usize, only_below: Option<usize>) -> Option<Doc> {
+    if matches!(doc.format, Format::Bam | Format::Bcf) {
+        // the record formats' many-members companion: a member boundary at every field boundary
+        return crate::format_level::foreign::split_at_field_boundaries(doc, max);
+    }
     if !matches!(doc.format, Format::Tbi | Format::Csi) {
         return None;
     }
